@@ -667,8 +667,8 @@ class StmtMixin:
             raise Unsupported(f"loop #{key[1]} of {key[0]} (line {node.lineno}) has no invariant")
         return ls
 
-    def check_steps(self, st: State, ls, prev: State, label_kind="step", is_ret=False):
-        clauses = list(ls.step) + (list(ls.step_ret) if is_ret else [])
+    def check_steps(self, st: State, ls, prev: State, label_kind="step", is_ret=False, is_brk=False):
+        clauses = list(ls.step) + (list(ls.step_ret) if is_ret else []) + (list(getattr(ls, "step_brk", [])) if is_brk else [])
         if not clauses:
             return st
         names = dict(self.entry_names)
@@ -792,7 +792,7 @@ class StmtMixin:
                 it0 = s2.assume(t).note(f"L{s.lineno}:iter")
                 for o in self.ex_block(it0, s.body):
                     if o.kind in ("ok", "cnt", "brk", "ret"):
-                        o = Out(o.kind, self.check_steps(o.st, ls, it0, is_ret=(o.kind == "ret")), o.val)
+                        o = Out(o.kind, self.check_steps(o.st, ls, it0, is_ret=(o.kind == "ret"), is_brk=(o.kind == "brk")), o.val)
                     if o.kind in ("ok", "cnt"):
                         if ls.post_hints:
                             o = Out(o.kind, o.st.copy(), o.val)
@@ -903,7 +903,7 @@ class StmtMixin:
                 continue
             for o in self.ex_block(a.st, s.body):
                 if o.kind in ("ok", "cnt", "brk", "ret"):
-                    o = Out(o.kind, self.check_steps(o.st, ls, a.st, is_ret=(o.kind == "ret")), o.val)
+                    o = Out(o.kind, self.check_steps(o.st, ls, a.st, is_ret=(o.kind == "ret"), is_brk=(o.kind == "brk")), o.val)
                 if o.kind in ("ok", "cnt"):
                     nd = seq_concat(done, seq_unit(x))
                     g2 = {"done": VSeq(nd, ek), f"done{ord_}": VSeq(nd, ek), "seq": VSeq(seq_t, ek),
